@@ -743,13 +743,13 @@ theorem pot_le_of_material {g : Game} (h : MaterialOKBoard g.board) : pot g ≤ 
 theorem ofFen_material {s : List Char} {g : Game} (h : Game.ofFen s = .ok g) :
     MaterialOKBoard g.board := by
   obtain ⟨pieces, side, cast, ep, rest, sc, player, st0, st, wk, bk, -, -, -, -, -, -, -, -, -,
-    hmw, hmb, hpe, rfl⟩ := ofFen_ok_inv h
+    hmw, hmb, hpe, -, -, rfl⟩ := ofFen_ok_inv h
   rw [updatePhase_board']
   exact ⟨hmw, hmb, hpe⟩
 
 theorem ofFen_len {s : List Char} {g : Game} (h : Game.ofFen s = .ok g) : g.len = 1 := by
   obtain ⟨pieces, side, cast, ep, rest, sc, player, st0, st, wk, bk, -, -, -, -, -, -, -, -, -,
-    -, -, -, rfl⟩ := ofFen_ok_inv h
+    -, -, -, -, -, rfl⟩ := ofFen_ok_inv h
   unfold Game.len
   rw [updatePhase_state]
   rfl
@@ -763,7 +763,7 @@ theorem fits_record {g : Game} {m m' : Move} (hf : g.Fits m) :
 played or searched raises it -/
 theorem reach_pot_le {g : Game} (h : Reach g) : pot g ≤ 48 := by
   induction h with
-  | imported s g hok _ _ => exact pot_le_of_material (ofFen_material hok)
+  | imported s g hok => exact pot_le_of_material (ofFen_material hok)
   | played g m hr hm ih =>
     have hf := (Game.getMoves_fits (reach_wf hr) true hm).1
     have h1 := pot_push_le (fits_record (m' := m) hf)
